@@ -8,7 +8,7 @@ from vlib.core import Broken, Mismatch, Failing
 
 ID = 'C18'
 LEVEL = 'proof'
-THEORIES = ['theories/L0Bits/BitsFacts.vo', 'theories/L3Context/Prime.vo']
+THEORIES = ['theories/L0Bits/BitsFacts.vo', 'theories/L3Context/PrimeFacts.vo']
 
 HEADER = '''From Coq Require Import ZArith List Bool String.
 Import ListNotations.
